@@ -45,6 +45,82 @@ PROPS = {
     },
 }
 
+RUNTIME_C05 = {
+    "unit": "runtime",
+    "subst_quick": {"RING_N": 8},
+    "subst_thorough": {"RING_N": 16},
+    "bound_note": "storage of N={RING_N} symbolic state words (cursor, sizes, delay length, inputs, times and all word contents fully symbolic)",
+    "harnesses": [
+        {"name": "vm_get_state_window", "bound": True, "fn": "vm.rs StateStorage::get_state", "doc": "window == rawdata[pos..pos+size], in bounds"},
+        {"name": "vm_get_state_mut_frame", "bound": True, "fn": "vm.rs StateStorage::get_state_mut", "doc": "a write touches exactly the addressed word"},
+        {"name": "vm_push_pop_inverse", "bound": False, "fn": "vm.rs StateStorage::{push_pos,pop_pos}", "doc": "full domain: every 24-bit offset, every non-overflowing cursor"},
+        {"name": "vm_delay_one_step_spec", "bound": True, "fn": "vm.rs StateStorage::get_as_ringbuffer + ringbuffer.rs Ringbuffer::{new,process}", "doc": "one-step functional spec + frame: only the cell's 2+len words change"},
+        {"name": "wasm_delay_equals_vm", "bound": True, "fn": "wasm.rs state_delay_host (X1) vs VM ring buffer", "doc": "bit-identical result and words"},
+        {"name": "wasm_delay_refuses_bad_length", "bound": True, "fn": "wasm.rs state_delay_host (X1)", "doc": "len<=0 or >MAX: returns 0.0, no state change"},
+        {"name": "wasm_mem_equals_vm", "bound": True, "fn": "wasm.rs state_mem_host (X1) vs VM Mem arm", "doc": "bit-identical result and words"},
+        {"name": "wasm_push_pop_equals_vm", "bound": False, "fn": "wasm.rs state_{push,pop}_host (X1) vs vm.rs push_pos/pop_pos", "doc": "full domain"},
+    ],
+}
+RUNTIME_C12 = {
+    "unit": "runtime",
+    "subst_quick": {"RING_N": 4},
+    "subst_thorough": {"RING_N": 4},
+    "bound_note": "slot map populated with 2-3 objects (reference counts and choice of operation fully symbolic)",
+    "harnesses": [
+        {"name": "heap_retain_contract", "bound": True, "fn": "heap.rs heap_retain on the real slotmap"},
+        {"name": "heap_release_contract", "bound": True, "fn": "heap.rs heap_release / heap_release_closure on the real slotmap"},
+        {"name": "heap_dangling_handle_is_inert", "bound": True, "fn": "heap.rs all three + slotmap key versioning"},
+        {"name": "slotmap_model_validation", "bound": True, "fn": "slotmap::SlotMap::{insert,get_mut,remove} vs the trusted Verus model"},
+    ],
+}
+PROPS["C05"] = {
+    "verus_units": ["state_tree"],
+    "kani_units": [RUNTIME_C05],
+    "floor": {"obligations": 50},
+    "trusted_base": ST_TRUSTED + [
+        "Kani harness crate: real ringbuffer.rs compiled unchanged (#[path]); StateStorage of vm.rs and StateStorage + state_*_host of wasm.rs cut verbatim (rule X1 for the host functions)",
+        "Vec::resize is stubbed by a panicking function in the WASM harnesses: lazy growth is proved unreachable inside a layout-sized storage",
+        "composition of the VM instruction arms Delay/Mem/GetState/SetState (inside Machine::execute) out of the contracted primitives is read off, not verified",
+    ],
+    "assumptions": [
+        "Kani units: the number of state words is bounded as stated per harness; everything else is full-domain symbolic",
+        "the cursor and sizes passed at run time are those of the layout (compiler half of C05, not covered)",
+    ],
+    "not_covered": [
+        "that mirgen/bytecodegen/wasmgen emit PushStateOffset/PopStateOffset/GetState/Delay/Mem whose dynamic cursor equals path_to_address of the call site, and that the cursor is back at 0 when dsp returns: a statement about all programs and a 4.8 kLoC recursive generator over interned ASTs; no contract within reach",
+        "state_get_host / state_set_host (copy through wasmtime linear memory)",
+    ],
+    "explanation": "C05 run-time half: (i) layout arithmetic (total_size, path_to_address = prefix sums, children tile the parent: lemma_addr_in_bounds, lemma_node_push) proved in Verus; (ii) each run-time primitive touches exactly the words of the cell at the cursor (Kani, bit-precise); (iii) VM and WASM host primitives perform the same transformation of the flat words (Kani relational harnesses); (iv) k-step delay history lemma over the one-step spec (Verus).",
+    "samples": [
+        {"obligation": "path_to_address::ensures", "clause": "r == Some((addr_off(self,path), size(node_at(self,path)))) iff wf_path"},
+        {"obligation": "vm_delay_one_step_spec", "clause": "res == words[pos+2+(w+len-d)%len]; words'[pos]=r; words'[pos+1]=(w+1)%len; words'[pos+2+w]=input; all other words unchanged"},
+        {"obligation": "wasm_delay_equals_vm", "clause": "state_delay_host(...).to_bits() == Ringbuffer::process(...) and equal words"},
+    ],
+    "extraction_drops": ["rule X1 on state_{push,pop,delay,mem}_host: `mut caller: Caller<'_, RuntimeState>` -> `current: &mut StateStorage`; dropped the two statements fetching the active StateStorage",
+                         "everything of vm.rs / wasm.rs that is not cut (Machine::execute, wasmtime plumbing)"],
+}
+PROPS["C12"] = {
+    "verus_units": ["heap"],
+    "kani_units": [RUNTIME_C12],
+    "floor": {"obligations": 12},
+    "trusted_base": [
+        "model of slotmap::SlotMap<DefaultKey, V> (finite map + ghost set of issued keys; get_mut / remove contracts) — third-party crate, validated bounded by the Kani harness slotmap_model_validation on the real slotmap",
+        "vstd specifications of Vec and vec![0; n]",
+    ],
+    "assumptions": ["data-structure invariant heap_wf (every live object has refcount >= 1 and size == data.len()) holds on entry; it is established by HeapObject::{new,with_data} and preserved by all three operations (proved)",
+                    "heap_retain: refcount < u64::MAX (2^64 retains of one object cannot occur)"],
+    "not_covered": [
+        "whether the compiler emits balanced Clone/Release/Close (insert_*_recursively in mirgen.rs) and the VM-side walkers drop_closure / release_heap_closure / release_usersum_recursive / clone_usersum_recursive (need the whole Machine and the type interner)",
+        "boundedness of live closures/objects over time: a whole-history property of generated programs",
+    ],
+    "explanation": "C12 heap-object clause: heap_retain / heap_release / heap_release_closure proved against the abstract map view (exact effect, frame, no arithmetic underflow, last release removes the object and the handle no longer resolves); balance lemma over the contracts (ghost history); the same contracts checked bit-precisely on the real slotmap by Kani with a bounded population.",
+    "samples": [
+        {"obligation": "heap_release::ensures", "clause": "rc==1 ==> storage' == storage.remove(idx) && !storage'.contains_key(idx)"},
+        {"obligation": "lemma_balance", "clause": "run(Some(n), ops) == Some(n + retains(ops) - releases(ops)) while every prefix releases fewer than exist"},
+    ],
+    "extraction_drops": ["log::trace!/warn! statements (N4)", "derive(Debug, Clone) on HeapObject", "#[cfg(test)] module"],
+}
+
 
 def is_trusted_cut(unit, cut):
     """cuts whose body is external_body (contract assumed) — no canary expected"""
